@@ -9,12 +9,19 @@ Families
                      + the orderings lookback >= european >= 0, american binary >= european binary,
                      call - put = S_T - K evaluated on the implementation's own outputs.
   forward_start_fn   european_forward_start_payoff over all (start_index, end_index) pairs incl. negative.
-  forward_start_cls  EuropeanForwardStartOption over all (start, dt) pairs whose exact quotient is an
-                     integer or far from one; start index = last grid time <= start.
+  forward_start_cls  EuropeanForwardStartOption over (start, dt) pairs: start = (k + f/64) dt, and the natural
+                     on-grid inputs dt = 1/n (n = 250, 100, 50, 365, 256), start = k/n and k*dt for every k below
+                     the path length (80; paths = constant path + all one-time deviations).  Start index = k when
+                     the exact quotient of the two floats is within 4 ulp of the integer k, else the floor.
+  nondyadic          float64 paths over a non-dyadic alphabet containing the strikes (0.9, 1.1, 1.3, ...), all
+                     payoffs incl. forward start, functions and classes; oracle = the contract in python
+                     (IEEE double) arithmetic, bitwise.
   variance_swap      VarianceSwap.payoff and realized_variance - strike on all paths, T >= 2 (mpmath oracle).
   clauses            all sequences of <= 3 clauses from {x2, +1, cap 1/2, knock-out on the path maximum}
                      under every assignment of clause names (so registration order != name order), on
-                     all paths, for the option classes; oracle = fold in registration order.
+                     all paths, for the option classes; oracle = fold in registration order.  One function
+                     object per clause symbol (a repeated symbol registers the same object twice), also as
+                     bound methods of one object and as fresh functions.
 """
 from __future__ import annotations
 
@@ -48,6 +55,17 @@ def family(fn):
 def _paths16(block):
     if "paths16" in block:
         return [list(p) for p in block["paths16"]]
+    if "onehot" in block:
+        # the constant path and every path that deviates from it at exactly one time, for every deviating
+        # symbol: the price at each single time index is observable in S_T / S_index
+        T, base = block["T"], block["onehot"]["base16"]
+        out = [[base] * T]
+        for dev in block["onehot"]["dev16"]:
+            for j in range(T):
+                p = [base] * T
+                p[j] = dev
+                out.append(p)
+        return out
     return [list(p) for p in itertools.product(block["A16"], repeat=block["T"])]
 
 
@@ -273,12 +291,101 @@ def cls_payoff(ctx, block):
 
 
 # ---------------------------------------------------------------------------
+# non-dyadic prices and strikes, float64, IEEE-double oracle
+# ---------------------------------------------------------------------------
+
+def _float_oracle(kind, path, strike, call):
+    """payoff_ref on python floats = IEEE double arithmetic: one subtraction (or one comparison) per
+    payoff, which torch float64 performs identically - the comparison is bitwise."""
+    return float(payoff_ref.payoff(kind, path, strike, call))
+
+
+@family
+def nondyadic(ctx, block):
+    """float64 paths over a NON-dyadic alphabet that contains the strikes (0.9, 1.1, 1.3: not representable
+    in float32).  Every option payoff is a single double subtraction / comparison of a path entry with the
+    strike (max and min select entries exactly), and the forward start one division and one subtraction:
+    the python-float evaluation of the contract is bit-for-bit the float64 result, so a strike that
+    went through a narrower dtype shows at ties (binaries flip) and as ~2e-8 in the vanilla payoffs."""
+    import pfhedge.instruments as I
+    import pfhedge.nn.functional as F
+    if "paths" in block:
+        paths = [list(p) for p in block["paths"]]
+    else:
+        paths = [list(p) for p in itertools.product(block["A"], repeat=block["T"])]
+    N, T = len(paths), len(paths[0])
+    x = torch.tensor(paths, dtype=torch.float64)
+    entries = block.get("entries", ["fn", "cls"])
+    kinds = block.get("kinds", list(KINDS) + ["forward_start"])
+    stock = market.primary("brownian", dtype=torch.float64)
+    market.set_buffers(stock, spot=x)
+    for strike in block["strikes"]:
+        nt = sum(1 for p in paths if strike in p)
+        for kind in kinds:
+            for call in ([True] if kind == "forward_start" else block.get("calls", [True, False])):
+                for entry in entries:
+                    variants = [None]
+                    if kind == "forward_start":
+                        variants = block.get("start_indices") or list(range(T))
+                    for si in variants:
+                        if kind == "forward_start":
+                            exp = [payoff_ref.forward_start_float(p, strike, si) for p in paths]
+                            if entry == "fn":
+                                site = "functional.european_forward_start_payoff"
+                                out = F.european_forward_start_payoff(x, strike=strike, start_index=si)
+                            else:
+                                site = "EuropeanForwardStartOption.payoff"
+                                out = I.EuropeanForwardStartOption(stock, strike=strike, maturity=(T - 1) * market.DT,
+                                                                   start=si * market.DT).payoff()
+                        else:
+                            exp = [_float_oracle(kind, p, strike, call) for p in paths]
+                            if entry == "fn":
+                                site = f"functional.{kind}_payoff"
+                                out = _fn(kind)(x, call=call, strike=strike)
+                            else:
+                                site = CLASSNAME[kind] + ".payoff"
+                                out = market.derivative(kind, stock, T=T, call=call, strike=strike).payoff()
+                        ctx.tick(N, nontrivial=nt)
+                        mini = {"paths": None, "strikes": [strike], "kinds": [kind], "calls": [call],
+                                "entries": [entry]}
+                        if si is not None:
+                            mini["start_indices"] = [si]
+                        if tuple(out.shape) != (N,) or out.dtype != torch.float64:
+                            mini["paths"] = paths[:1]
+                            ctx.violation(site, "nondyadic:shape_or_dtype", f"shape {tuple(out.shape)}, dtype {out.dtype}",
+                                          observed=[list(out.shape), str(out.dtype)], expected=[[N], "torch.float64"],
+                                          block=mini)
+                            continue
+                        ol = out.tolist()
+                        for i in range(N):
+                            if not ol[i] == exp[i]:
+                                if kind == "forward_start":
+                                    r = paths[i][-1] / paths[i][si]
+                                    cls = f"nondyadic:ratio{_rel(r, strike)}K"
+                                else:
+                                    cls = "nondyadic:" + classify(kind, call, paths[i], strike)
+                                m = dict(mini)
+                                m["paths"] = [paths[i]]
+                                ctx.violation(site, cls, f"{kind} {'call' if call else 'put'} payoff on float64 path "
+                                              f"{paths[i]} with strike {strike!r} is {ol[i]!r}; the contract in double "
+                                              f"arithmetic gives {exp[i]!r}", observed=ol[i], expected=exp[i], block=m)
+                        ctx.outcome((kind, call, entry, strike, si, sum(ol)))
+    if len(ctx.samples) < 6 and T == 2 and "A" in block:
+        k = block["strikes"][1]
+        p = next(q for q in paths if q[-1] == k and q[0] != k)
+        ctx.sample({"family": "nondyadic", "kind": "european_binary", "call": True, "path": p, "strike": k,
+                    "implementation": float(F.european_binary_payoff(torch.tensor([p], dtype=torch.float64), strike=k)[0]),
+                    "reference": _float_oracle("european_binary", p, k, True)})
+
+
+# ---------------------------------------------------------------------------
 # forward start
 # ---------------------------------------------------------------------------
 
-def _fs_check(ctx, site, cls, out, paths, k16, idx, end, dtype, mini_of, what):
-    """Compare a forward-start payoff vector with the oracle.  The ratio S_end/S_start is one correctly
-    rounded division and the subtraction of the (dyadic) strike one more rounding:
+def _fs_bad(out, paths, k16, idx, end, dtype):
+    """First path on which a forward-start payoff vector differs from the oracle, as (i, observed, expected),
+    else None.  The ratio S_end/S_start is one correctly rounded division and the subtraction of the
+    (dyadic) strike one more rounding:
     |error| <= eps/2 * ratio + eps/2 * |ratio - K| <= eps * (ratio + K)  -> tol = 2 eps (ratio + K)."""
     eps = torch.finfo(dtype).eps
     K = Fraction(k16, SC)
@@ -288,10 +395,18 @@ def _fs_check(ctx, site, cls, out, paths, k16, idx, end, dtype, mini_of, what):
         ratio = p[len(p) - 1 if end is None else end] / p[idx]
         tol = 2 * eps * float(ratio + K)
         if ol[i] != ol[i] or abs(Fraction(ol[i]) - e) > tol:
-            ctx.violation(site, cls, f"{what}: payoff differs from max(S_end/S_start - K, 0) on path/16={paths[i]}, "
-                          f"strike/16={k16}", observed=ol[i], expected=float(e), block=mini_of(paths[i]))
-            return False
-    return True
+            return i, ol[i], float(e)
+    return None
+
+
+def _fs_check(ctx, site, cls, out, paths, k16, idx, end, dtype, mini_of, what):
+    bad = _fs_bad(out, paths, k16, idx, end, dtype)
+    if bad is None:
+        return True
+    i, o, e = bad
+    ctx.violation(site, cls, f"{what}: payoff differs from max(S_end/S_start - K, 0) on path/16={paths[i]}, "
+                  f"strike/16={k16}", observed=o, expected=e, block=mini_of(paths[i]))
+    return False
 
 
 @family
@@ -329,23 +444,59 @@ def forward_start_fn(ctx, block):
 
 
 def fs_pairs(T, dt_list, fracs64):
-    """(start, dt, index, exact) pairs admitted for paths of length T.
-    start = (k + f/64) * dt computed in floating point.  A pair is admitted iff the exact rational
-    quotient start/dt (of the two floats) is an integer or farther than 2^-20 from every integer; the
-    index is then floor(start/dt) without any dependence on a rounding convention."""
+    """(start, dt, index, kind) pairs for paths of length T: start = (k + f/64) * dt in floating point,
+    index and kind from payoff_ref.start_index (on the grid: k, also when the float quotient is only within
+    rounding distance of k; between grid times: the floor).  Pairs of undecided kind are counted, not run."""
     out, skipped = [], 0
     for dt in dt_list:
         for k in range(T):
             for f in fracs64:
                 start = (k + f / 64) * dt
-                idx, near, exact = payoff_ref.start_index(start, dt)
-                if not exact and near < Fraction(1, 2 ** 20):
+                idx, kind = payoff_ref.start_index(start, dt)
+                if idx is None:
                     skipped += 1
                     continue
                 if idx > T - 1:
                     continue
-                out.append((start, dt, idx, exact))
+                out.append((start, dt, idx, kind))
     return out, skipped
+
+
+def fs_grid_pairs(T, ns):
+    """Natural on-grid inputs: dt = 1/n, start = k/n and start = k*dt for every k < T."""
+    out, skipped, seen = [], 0, set()
+    for n in ns:
+        dt = 1 / n
+        for k in range(T):
+            for start in (k / n, k * dt):
+                if (start, dt) in seen:
+                    continue
+                seen.add((start, dt))
+                idx, kind = payoff_ref.start_index(start, dt)
+                if idx != k:
+                    skipped += 1      # the model does not recognise the pair as k steps: not decided
+                    continue
+                out.append((start, dt, idx, kind))
+    return out, skipped
+
+
+def fs_class(start, dt, idx, kind, T, matches_previous_step):
+    """Signature class of a wrong forward-start index, computed from the inputs (start, dt):
+    where the start lies relative to the grid and, for on-grid starts whose quotient is not exactly
+    representable, on which side of the integer the *float* quotient start/dt falls."""
+    pos = "first" if idx == 0 else ("last" if idx == T - 1 else "middle")
+    if kind == "between":
+        return f"start_index:between_grid_times:{pos}"
+    if kind == "on_grid_exact":
+        return f"start_index:on_grid_exact:{pos}"
+    fq = start / dt
+    if fq < idx:
+        # float(start/dt) = k - ulp although start is k steps: flooring the float quotient gives k-1
+        return ("start_quotient_rounds_below_integer" if matches_previous_step
+                else "start_quotient_rounds_below_integer:unexpected_index")
+    if fq == idx:
+        return f"start_index:on_grid_rounded:float_quotient_is_integer:{pos}"
+    return f"start_index:on_grid_rounded:float_quotient_above_integer:{pos}"
 
 
 @family
@@ -359,38 +510,54 @@ def forward_start_cls(ctx, block):
     if "pairs" in block:
         pairs = []
         for start, dt in block["pairs"]:
-            idx, near, exact = payoff_ref.start_index(start, dt)
-            pairs.append((start, dt, idx, exact))
+            idx, kind = payoff_ref.start_index(start, dt)
+            if idx is not None:
+                pairs.append((start, dt, idx, kind))
+    elif "ns" in block:
+        pairs, skipped = fs_grid_pairs(T, block["ns"])
+        ctx.add("start_dt_pairs_undecided", skipped)
     else:
         pairs, skipped = fs_pairs(T, block["dts"], block["fracs64"])
-        ctx.add("start_dt_pairs_excluded_near_integer_quotient", skipped)
-    for start, dt, idx, exact in pairs:
+        ctx.add("start_dt_pairs_undecided", skipped)
+    moving = sum(1 for p in paths if len(set(p)) > 1)
+    for start, dt, idx, kind in pairs:
         stock = market.primary("brownian", dtype=dtype, dt=dt)
         market.set_buffers(stock, spot=x)
+        ctx.add("start_dt_pairs:" + kind, 1)
         for k16 in block["strikes16"]:
-            def mini_of(path, start=start, dt=dt, k16=k16):
-                return {"dtype": block["dtype"], "paths16": [path], "strikes16": [k16], "pairs": [[start, dt]]}
+            def mini_of(*ps, start=start, dt=dt, k16=k16):
+                return {"dtype": block["dtype"], "paths16": list(ps), "strikes16": [k16], "pairs": [[start, dt]]}
             d = I.EuropeanForwardStartOption(stock, strike=k16 / SC, maturity=(T - 1) * dt, start=start)
-            ctx.tick(N, nontrivial=sum(1 for p in paths if len(set(p)) > 1))
+            ctx.tick(N, nontrivial=moving)
             try:
                 out = d.payoff()
             except IndexError as e:
-                ctx.violation(site, "raises:IndexError", f"start={start!r}, dt={dt!r}, T={T}: {e}",
+                ctx.violation(site, f"raises:IndexError:{kind}", f"start={start!r}, dt={dt!r}, T={T}: {e}",
                               observed="IndexError", expected=f"start index {idx}", block=mini_of(paths[0]))
                 continue
             if tuple(out.shape) != (N,):
                 ctx.violation(site, "shape", f"shape {tuple(out.shape)}", observed=list(out.shape), expected=[N],
                               block=mini_of(paths[0]))
                 continue
-            pos = "first" if idx == 0 else ("last" if idx == T - 1 else "middle")
-            cls = f"start_index:{'on_grid' if exact else 'between_grid_times'}:{pos}"
-            _fs_check(ctx, site, cls, out, paths, k16, idx, None, dtype, mini_of,
-                      f"start={start!r}, dt={dt!r} (start index {idx})")
+            bad = _fs_bad(out, paths, k16, idx, None, dtype)
+            if bad is not None:
+                i, o, e = bad
+                # does the output equal the payoff struck one step before the start time, on every path?
+                # (a path refuting that is kept in the replay block so that the class is reproducible)
+                w = _fs_bad(out, paths, k16, idx - 1, None, dtype) if idx >= 1 else (i, None, None)
+                prev_ok = w is None
+                witness = [] if (w is None or w[0] == i) else [paths[w[0]]]
+                cls = fs_class(start, dt, idx, kind, T, prev_ok)
+                ctx.violation(site, cls, f"start={start!r}, dt={dt!r} (exact quotient {float(Fraction(start) / Fraction(dt))!r}"
+                              f", float quotient {start / dt!r}, contractual start index {idx}): payoff differs from "
+                              f"max(S_T/S_start - K, 0) on path/16={paths[i]}, strike/16={k16}"
+                              + (" - the price one step before the start time was used" if prev_ok else ""),
+                              observed=o, expected=e, block=mini_of(paths[i], *witness))
             ctx.outcome((start, dt, k16, round(float(out.sum()), 9)))
-    if len(ctx.samples) < 4 and pairs and T == 4 and block["dtype"] == "float64":
-        start, dt, idx, exact = pairs[len(pairs) // 2 + len(ctx.samples)]
+    if len(ctx.samples) < 4 and pairs and T == 4 and block["dtype"] == "float64" and "ns" not in block:
+        start, dt, idx, kind = pairs[len(pairs) // 2 + len(ctx.samples)]
         ctx.sample({"family": "forward_start_cls", "start": start, "dt": dt, "start/dt": start / dt,
-                    "reference_start_index": idx, "T": T})
+                    "reference_start_index": idx, "kind": kind, "T": T})
 
 
 # ---------------------------------------------------------------------------
@@ -472,6 +639,42 @@ def _real_clause(name, barrier):
     raise KeyError(name)
 
 
+class _ClauseBox:
+    """The clause alphabet as methods of ONE object: each registration uses a bound method of the same
+    instance (bound methods of one object compare and hash equal)."""
+
+    def __init__(self, barrier):
+        self.barrier = barrier
+
+    def double(self, d, p):
+        return p * 2
+
+    def plus1(self, d, p):
+        return p + 1
+
+    def cap(self, d, p):
+        return p.clamp(max=0.5)
+
+    def knockout(self, d, p):
+        top = d.ul().spot.max(-1).values
+        return p.where(top < self.barrier, torch.zeros_like(p))
+
+
+def clause_supplier(style, barrier):
+    """name -> callable to register.  'function': ONE function object per clause symbol, so a sequence such
+    as [x2, +1, x2] registers the *same* object under two names; 'bound_method': bound methods of one
+    object; 'fresh': a new function object per registration."""
+    if style == "function":
+        table = {n: _real_clause(n, barrier) for n in CLAUSE_ALPHABET}
+        return lambda n: table[n]
+    if style == "bound_method":
+        box = _ClauseBox(barrier)
+        return lambda n: getattr(box, n)
+    if style == "fresh":
+        return lambda n: _real_clause(n, barrier)
+    raise KeyError(style)
+
+
 def clause_programs(max_len=3):
     """Every clause sequence of length <= max_len, each under every injective assignment of the
     names ca < cb < cc (< cd) to its positions (registration order vs alphabetical order of the names)."""
@@ -497,11 +700,14 @@ def clauses(ctx, block):
     stock = market.primary("brownian", dtype=dtype)
     market.set_buffers(stock, spot=x)
     base = _oracle(kind, call, k16, paths, _key(block))
+    style = block.get("callable", "function")
+    supply = clause_supplier(style, b16 / SC)
     for prog in progs:
         seq, names = prog["seq"], prog["names"]
         d = _derivative(kind, stock, T, k16, call)
         for nm, cl in zip(names, seq):
-            d.add_clause(nm, _real_clause(cl, b16 / SC))
+            d.add_clause(nm, supply(cl))
+        repeated = "repeated_callable" if len(set(seq)) < len(seq) and style != "fresh" else "distinct_callables"
         out = d.payoff()
         exp = [payoff_ref.fold_clauses(frp[i], base[i], seq, barrier) for i in range(N)]
         rev = [payoff_ref.fold_clauses(frp[i], base[i], seq[::-1], barrier) for i in range(N)]
@@ -509,14 +715,14 @@ def clauses(ctx, block):
 
         def mini_of(path):
             return {"dtype": block["dtype"], "paths16": [path], "kind": kind, "call": call, "strike16": k16,
-                    "barrier16": b16, "programs": [prog]}
+                    "barrier16": b16, "programs": [prog], "callable": style}
         if tuple(out.shape) != (N,):
             ctx.violation(site, "shape", f"shape {tuple(out.shape)}", observed=list(out.shape), expected=[N],
                           block=mini_of(paths[0]))
             continue
         registered = [n for n, _ in d.named_clauses()]
         if registered != names:
-            ctx.violation("BaseDerivative.named_clauses", f"order:{len(seq)}_clauses",
+            ctx.violation("BaseDerivative.named_clauses", f"order:{len(seq)}_clauses:{repeated}",
                           f"named_clauses() order {registered} != registration order {names}",
                           observed=registered, expected=names, block=mini_of(paths[0]))
         ol = out.to(torch.float64).tolist()
@@ -534,8 +740,8 @@ def clauses(ctx, block):
         if bad:
             i = bad[0]
             sorted_names = names == sorted(names)
-            cls = f"fold:{len(seq)}_clauses:{'names_in_order' if sorted_names else 'names_out_of_order'}"
-            ctx.violation(site, cls, f"payoff with clauses {seq} registered as {names} on {CLASSNAME[kind]} "
+            cls = f"fold:{len(seq)}_clauses:{'names_in_order' if sorted_names else 'names_out_of_order'}:{repeated}"
+            ctx.violation(site, cls, f"payoff with clauses {seq} ({style} callables) registered as {names} on {CLASSNAME[kind]} "
                           f"differs from the fold in registration order (path/16={paths[i]})",
                           observed=ol[i], expected=float(exp[i]), block=mini_of(paths[i]))
         ctx.outcome((kind, call, tuple(seq), round(sum(ol), 6)))
@@ -565,9 +771,12 @@ def run(ctx):
              "fold differs from the reversed fold (clauses)")
     ctx.assume("dyadic price/strike alphabets: every float32/float64 operation of the option payoffs is exact, "
                "comparison is bitwise; forward-start ratio: 2 eps (ratio+K); variance swap: derived eps bound")
-    ctx.assume("forward start: (start, dt) pairs whose exact quotient is within 2^-20 of an integer without being "
-               "one are excluded (the rounding convention of start/dt is not fixed by the property); variance "
-               "swap on one-point paths is excluded (no return)")
+    ctx.assume("forward start: a start whose exact quotient start/dt is within 4 ulp of an integer k is k steps "
+               "(start index k: the start time is on the grid up to the rounding of start and dt); a start "
+               "farther than 2^-20 from every integer is struck at the last grid time before it (floor); "
+               "nothing in between is enumerated.  Variance swap on one-point paths is excluded (no return)")
+    ctx.assume("non-dyadic family: float64 only; the python-float evaluation of the contract (one subtraction / "
+               "comparison / division) is bit-for-bit the IEEE double result torch float64 must return")
     ctx.assume("clauses are represented by the enumerated alphabet, not by all programs; re-registration under "
                "an existing name is not enumerated")
     base = [12, 16, 20, 24]                       # 0.75, 1, 1.25, 1.5
@@ -622,6 +831,24 @@ def run(ctx):
                 continue
             ctx.run("forward_start_cls", {"dtype": dtype, "T": T, "A16": A, "strikes16": fs_strikes[:2],
                                           "dts": dts, "fracs64": [0, 1, 16, 32, 63]})
+    # natural on-grid starts: dt = 1/n, start = k/n and k*dt for EVERY k below the path length; paths = the
+    # constant path and all its one-time deviations (the price at each single index is observable)
+    ns = [250, 100, 50, 365, 256]
+    ctx.alphabet("forward-start on-grid dt", ["1/250", "1/100 (= 0.01)", "1/50", "1/365", "1/256"])
+    T_long = ctx.pick(80, 128)
+    ctx.info["forward_start_on_grid_T"] = T_long
+    ctx.run("forward_start_cls", {"dtype": "float64", "T": T_long, "onehot": {"base16": 16, "dev16": [20, 12]},
+                                  "strikes16": [12], "ns": ns})
+    for T in (2, 3, 4):
+        ctx.run("forward_start_cls", {"dtype": "float64", "T": T, "A16": A4, "strikes16": [16], "ns": ns})
+    # non-dyadic float64 prices / strikes
+    nd_extra = ctx.extra_symbol("nondyadic", [0.7, 1.05, 1.7, 0.3, 1.15, 2.3])
+    nd_A = [0.9, 1.1, 1.3, nd_extra]
+    nd_K = [0.9, 1.1, 1.3, 1.2, nd_extra]
+    ctx.alphabet("non-dyadic price", nd_A)
+    ctx.alphabet("non-dyadic strike", nd_K)
+    for T in ctx.pick([1, 2, 3], [1, 2, 3, 4, 5]):
+        ctx.run("nondyadic", {"T": T, "A": nd_A, "strikes": nd_K})
     # variance swap
     vs_dts = [1 / 256, 1 / 250]
     ctx.alphabet("variance-swap dt", ["1/256", "1/250"])
@@ -651,6 +878,13 @@ def run(ctx):
                         continue
                     blocks.append({"dtype": dtype, "T": T, "A16": A4 if T >= 3 else A5, "kind": kind, "call": call,
                                    "strike16": 18 if kind in ("european", "lookback") else 20, "barrier16": 24})
+    ctx.alphabet("clause callables", ["one function object per symbol", "bound methods of one object",
+                                      "fresh function per registration"])
+    for b in list(blocks):
+        if b["dtype"] == "float64" and (ctx.thorough or (b["kind"] == "european" and b["call"])):
+            blocks.append(dict(b, callable="bound_method"))
+        if b["dtype"] == "float64" and b["kind"] == "european" and b["call"] and b["T"] == 3:
+            blocks.append(dict(b, callable="fresh"))
     if ctx.thorough:
         # all 341 sequences of <= 4 clauses x all name assignments (6565 programs) on the European call
         ctx.info["clause_programs_len4"] = len(clause_programs(4))
